@@ -265,6 +265,40 @@ func c12Case(t *rapid.T, ev *evProp, realDKG bool) {
 		if !ed25519.Verify(ed25519.PublicKey(Xb), msg, sig) {
 			violationOrKnown(t, ev, key("verify-stdlib"), "crypto/ed25519 rejects the signature\n%s %s", ctx, h)
 		}
+		// the object stays usable after it has produced the signature (partials keep arriving in a
+		// broadcast setting): the caller overwrites the signature bytes it was given, late valid
+		// partials are accepted, a late invalid one is refused, the own partial is still the same
+		// valid one, and Signature() is still the same signature
+		snap := append([]byte(nil), sig...)
+		for i := range sig {
+			sig[i] ^= 0xa5
+		}
+		var late []int
+		for i := 0; i < n; i++ {
+			if !accepted[i] {
+				late = append(late, i)
+			}
+		}
+		for _, i := range late {
+			if rapid.Bool().Draw(t, fmt.Sprintf("latebad%d.%d", r, i)) {
+				bad := &dss.PartialSig{Partial: &share.PriShare{I: ps[i].Partial.I, V: g.Scalar().Add(ps[i].Partial.V, g.Scalar().One())}, SessionID: append([]byte(nil), ps[i].SessionID...)}
+				bad.Signature, _ = schnorr.Sign(suite, privs[i], bad.Hash(suite))
+				if d.ProcessPartialSig(bad) == nil {
+					violationOrKnown(t, ev, key("invalid-accepted"), "participant %d accepted an invalid late partial (value+1 re-signed by %d) after Signature()\n%s %s", r, i, ctx, h)
+				}
+			}
+			if err := d.ProcessPartialSig(ps[i]); err != nil {
+				violationOrKnown(t, ev, key("valid-refused"), "participant %d refused the valid late partial of %d after Signature(): %v\n%s %s", r, i, err, ctx, h)
+			}
+		}
+		if own, err := d.PartialSig(); err != nil || !own.Partial.V.Equal(ps[r].Partial.V) || own.Partial.I != ps[r].Partial.I ||
+			schnorr.Verify(suite, pubs[r], own.Hash(suite), own.Signature) != nil || !bytes.Equal(own.SessionID, ps[r].SessionID) {
+			violationOrKnown(t, ev, key("partialsig"), "participant %d: PartialSig() after Signature() is not its valid partial any more (%v)\n%s %s", r, err, ctx, h)
+		}
+		if again, err := d.Signature(); err != nil || !bytes.Equal(again, snap) {
+			violationOrKnown(t, ev, key("same-signature"), "participant %d: Signature() after late partials / after the caller overwrote the first result gives %x, %v; first %x\n%s %s", r, again, err, snap, ctx, h)
+		}
+		sigs[len(sigs)-1] = snap
 	}
 	for _, s := range sigs[min(1, len(sigs)):] {
 		if !bytes.Equal(s, sigs[0]) {
@@ -278,12 +312,12 @@ const c12Rule = "case = Ed25519, n in 3..7, t in [n/2+1, n] (1/4 of the cases: a
 	"1..n receiving participants each get their own random subset of the other participants' partial signatures in a random order, with injected partials before 1/3 of them from {value+1, value+1 re-signed by its owner, signed by another participant, partial of another session, other-session value relabelled with this session id and re-signed, duplicate, index >= n, another participant's index re-signed by that participant, corrupted signature, nil session id}. " +
 	"Oracle: an injected invalid partial returns an error and does not change EnoughPartialSig; valid ones are accepted; EnoughPartialSig <=> >= t distinct accepted (own included); Signature errors below t; otherwise it verifies with dss.Verify, eddsa.Verify, schnorr.Verify and crypto/ed25519.Verify under the distributed key, and all participants derive byte-identical signatures. " +
 	"non-trivial = at least one injected partial or an out-of-index-order delivery; distinct = distinct rendered case" +
-	" Added after the sensitivity rounds: long-term and one-time thresholds drawn independently (T = max); each receiver issues its own partial at a generated position of its delivery sequence."
+	" Added after the sensitivity rounds: long-term and one-time thresholds drawn independently (T = max); each receiver issues its own partial at a generated position of its delivery sequence; after Signature() the returned bytes are overwritten, late valid partials must be accepted, a late invalid one refused, PartialSig() and Signature() unchanged."
 
 func TestC12_DSS(t *testing.T) {
 	ev := evFor("C12")
 	ev.Rule(c12Rule)
-	rcheck(t, 400, 60000, func(t *rapid.T) {
+	rcheck(t, 1200, 60000, func(t *rapid.T) {
 		real := tier() == "thorough" && rapid.IntRange(0, 4).Draw(t, "realdkg") == 0
 		c12Case(t, ev, real)
 	})
